@@ -474,6 +474,30 @@ fn check(case: &Case, obs: &mut Obs) -> Result<(), Failure> {
     let info = Info { view: &view, rd, ud, du };
     let mut fails = Fails { list: Vec::new() };
 
+    // ---- replay aid (no assertion): what dead_code_elimination, the consumer of these chains, does
+    if obs.replay {
+        match guard(|| analysis::dead_code_elimination(&function)) {
+            Ok(Ok(out)) => {
+                let after = FnView::of(&out);
+                let gone: Vec<String> = view
+                    .all_locs()
+                    .into_iter()
+                    .filter(|l| match (info.op(*l), l) {
+                        (Some(op), Loc::Instr(b, i)) => !op.is_nop() && after.instr(*b, *i).map(|x| x.op.is_nop()).unwrap_or(false),
+                        _ => false,
+                    })
+                    .map(|l| info.show(l))
+                    .collect();
+                println!("replay note: dead_code_elimination replaces by nop: {}", if gone.is_empty() { "nothing".to_string() } else { gone.join(", ") });
+            }
+            Ok(Err(e)) => println!("replay note: dead_code_elimination returned an error: {}", e),
+            Err(pi) => println!("replay note: dead_code_elimination panicked: {}", pi.msg),
+        }
+        for l in view.all_locs() {
+            println!("replay note: UD[{}] = {}", info.show(l), info.show_set(info.ud.get(&l)));
+        }
+    }
+
     // ---- classes of the function
     if case.g.spec.has_cycle() {
         obs.class("fn-loop");
@@ -868,7 +892,7 @@ fn main() -> std::process::ExitCode {
     let mut spec = Spec::new(
         "C12",
         "IL functions from gen_fn (1-7 blocks, loops, calls, intrinsics, loads/stores, sometimes unreachable blocks) enriched with self-referential updates, 0/1/2/3-scalar reads, the same scalar read twice, intrinsics with 0-3 declared written / read scalars and with undeclared effects; 16 initial states, executions of up to 300 steps by the reference interpreter (intrinsics and returning calls in havoc mode); after every executed location the last writer of every scalar written so far must be in RD of that location, before every executed instruction / taken guarded edge the last writers of the scalars it reads must be in its UD, every assignment or load in RD[L] must reach L on a path (own BFS over the location graph) without another assignment or load of its scalar, and DU must be the inverse of UD; non-trivial = some execution in which one scalar is written by two different instructions; distinct = (#blocks, #edges capped, #scalars with >= 2 static definitions capped, set of execution classes, largest RD set capped)",
-        Box::new(|_t: Tier| from_tape(1400, decode)),
+        Box::new(|_t: Tier| from_tape(1800, decode)),
         |t| t.pick(20_000, 1_000_000),
         check,
     );
